@@ -97,34 +97,6 @@ def r1(fx):
             yield ob(f'{w}: origin = {origin}', nf.same(a.value, origin), a, got=ast.unparse(a.value), want=origin)
 
 
-@rule('C10', 'R2', 14, 'scale transform is emitted exactly when scale != 1 (SVG, EPS, PDF siblings)')
-def r2(fx):
-    scales = (0.25, 0.5, 0.99, 1, 1.0, 1.01, 2, 3.3, 10)
-    svg = fx.fn('writers', 'write_svg')
-    a = single([s for s in svg.body if isinstance(s, ast.Assign) and ast.unparse(s.targets[0]) == 'scale_info'], 'SVG scale_info')
-    for sc in scales:
-        got = ev.ev(a.value, {'scale': sc})
-        want = f' transform="scale({sc})"' if sc != 1 else ''
-        yield ob(f'SVG scale {sc}', got == want, a, got=got, want=want)
-    for w, patn in (('write_eps', "writeline(f'{scale} {scale} scale')"), ('write_pdf', "append_cmd(f'{scale} 0 0 {scale} 0 0 cm')")):
-        fn = fx.fn('writers', w)
-        sites = [s for s in src.statements(fn.body) if isinstance(s, ast.Expr) and pat.match(s.value, patn) is not None]
-        s = single(sites, f'scale transform of {w}')
-        g = nf.guards_of(s, fn)
-        need(len(g) >= 1, f'{w}: unguarded scale transform')
-        cond = g[-1][0]
-        bad = [sc for sc in scales if bool(ev.ev(cond, {'scale': sc})) != (sc != 1)]
-        yield ob(f'{w}: transform guard', not bad and len(g) == 1, s, got=f'if {ast.unparse(cond)} (differs from scale != 1 at {bad})', want='if scale != 1')
-    g = single([s for s in svg.body if isinstance(s, ast.Assign) and ast.unparse(s.targets[0]) == 'need_svg_group'], 'need_svg_group')
-    yield ob('SVG: the transform sits on the group when there is more than one path, else on the path', nf.same(g.value, 'scale != 1 and (need_background or is_multicolor)'),
-             g, got=ast.unparse(g.value), want='scale != 1 and (need_background or is_multicolor)')
-    p = single([s for s in svg.body if isinstance(s, ast.Assign) and ast.unparse(s.targets[0]) == 'p'], 'SVG path prefix')
-    yield ob('SVG path carries the transform iff there is no group', "scale_info if not need_svg_group else ''" in ast.unparse(p.value), p,
-             got=ast.unparse(p.value)[:90], want="scale_info if not need_svg_group else ''")
-    grp = [ast.unparse(s) for s in src.statements(svg.body) if isinstance(s, ast.AugAssign) and '<g' in ast.unparse(s)]
-    yield ob('SVG group opens with the transform', grp == ["svg += f'<g{scale_info}>'"], svg, got=grp, want=["svg += f'<g{scale_info}>'"])
-
-
 TAINT = {'scale', 'width', 'height'}
 
 
@@ -144,54 +116,6 @@ def r3(fx):
                 if names & TAINT:
                     bad.append(f'{ast.unparse(n)} at line {n.lineno}')
         yield ob(f'{w}: integer rounding of scale-derived values', not bad, fn, got=bad, want=[])
-
-
-@rule('C10', 'R4', 5, 'units: PDF background (page units) before the transform; SVG background sized in module units; EPS background fills the clip path')
-def r4(fx):
-    pdf = fx.fn('writers', 'write_pdf')
-    bg = single([s for s in pdf.body if isinstance(s, ast.If) and nf.same(s.test, 'light is not None')], 'PDF background block')
-    tr = single([s for s in pdf.body if isinstance(s, ast.If) and 'cm' in ast.unparse(s) and 'scale' in ast.unparse(s.test)], 'PDF transform block')
-    yield ob('PDF: background rectangle is emitted before the scale transform', pdf.body.index(bg) < pdf.body.index(tr), bg,
-             got=f'background at line {bg.lineno}, transform at line {tr.lineno}', want='background first')
-    rect = [ast.unparse(s.value.args[0]) for s in bg.body if isinstance(s, ast.Expr) and isinstance(s.value, ast.Call)]
-    wh = nf.unpack_targets(pdf, lambda c: src.call_name(c) == '_valid_width_height_and_border')
-    need(wh is not None and len(wh) == 3, 'write_pdf: size unpacking')
-    yield ob('PDF: background = fill colour, 0 0 width height re, f', len(rect) == 3 and rect[1] == f"f'0 0 {{{wh[0]}}} {{{wh[1]}}} re'" and rect[2] == "'f q'"
-             and 'rg' in rect[0] and 'to_pdf_color(light)' in rect[0], bg, got=rect, want="['... rg', '0 0 {width} {height} re', 'f q']")
-    svg = fx.fn('writers', 'write_svg')
-    b1 = single([s for s in src.statements(svg.body) if isinstance(s, ast.Assign) and 'coordinates[colormap[consts.TYPE_QUIET_ZONE]]' in ast.unparse(s.targets[0])], 'SVG background start')
-    names = {x.id for x in ast.walk(b1.value) if isinstance(x, ast.Name)}
-    yield ob('SVG: background path starts at (0, 0) with a horizontal length in module units', nf.same(b1.value, '[(0, 0, matrix_size[0] + 2 * border)]'),
-             b1, got=ast.unparse(b1.value), want='[(0, 0, matrix_size[0] + 2 * border)]')
-    rep = [n for n in ast.walk(svg) if isinstance(n, ast.JoinedStr) and 'z"/>' in ast.unparse(n)]
-    need(rep, 'SVG background closing path not found')
-    r = rep[0]
-    exprs = [ast.unparse(v.value) for v in r.values if isinstance(v, ast.FormattedValue)]
-    yield ob('SVG: background closes with v<rows+2b> h-<cols+2b> z (module units)', exprs == ['matrix_size[1] + 2 * border', 'matrix_size[0] + 2 * border'], r,
-             got=exprs, want=['matrix_size[1] + 2 * border', 'matrix_size[0] + 2 * border'])
-    eps = fx.fn('writers', 'write_eps')
-    f = [ast.unparse(c) for c in src.calls_in(eps, 'writeline') if 'clippath fill' in ast.unparse(c)]
-    yield ob('EPS: background = setrgbcolor clippath fill of the light colour, before the scale', len(f) == 1 and 'rgb_to_floats(light)' in f[0], eps, got=f,
-             want="writeline('{0:f} {1:f} {2:f} setrgbcolor clippath fill'.format(*rgb_to_floats(light)))")
-
-
-@rule('C10', 'R5', 4, 'origin: EPS and PDF share the first baseline rows + border - 1/2; TeX scales every coordinate')
-def r5(fx):
-    forms = {}
-    for w in ('write_eps', 'write_pdf'):
-        fn = fx.fn('writers', w)
-        a = single([s for s in fn.body + [x for st in fn.body if isinstance(st, ast.With) for x in st.body] if isinstance(s, ast.Assign) and ast.unparse(s.targets[0]) == 'y'
-                    and 'get_symbol_size' in ast.unparse(s.value)], f'baseline in {w}')
-        forms[w] = nf.norm(a.value)
-        yield ob(f'{w}: y = rows + border - 0.5', nf.same(a.value, 'get_symbol_size(matrix_size, scale=1, border=0)[1] + border - .5'), a,
-                 got=ast.unparse(a.value), want='get_symbol_size(matrix_size, scale=1, border=0)[1] + border - .5')
-    pdf = fx.fn('writers', 'write_pdf')
-    c = [ast.unparse(s.value) for s in pdf.body if isinstance(s, ast.Expr) and "cm'" in ast.unparse(s) and 'border' in ast.unparse(s)]
-    yield ob('PDF: origin moved to (border, y)', c == ["append_cmd(f'1 0 0 1 {border} {y} cm')"], pdf, got=c, want=["append_cmd(f'1 0 0 1 {border} {y} cm')"])
-    tex = fx.fn('writers', 'write_tex')
-    pts = sorted(ast.unparse(c) for c in src.calls_in(tex, 'point'))
-    yield ob('TeX: every coordinate is multiplied by scale', pts == ['point(x1 * scale, y1 * scale)', 'point(x2 * scale, y2 * scale)'], tex, got=pts,
-             want=['point(x1 * scale, y1 * scale)', 'point(x2 * scale, y2 * scale)'])
 
 
 class Stream:
@@ -254,40 +178,6 @@ def r6(fx):
     fx.info['C10.R6 bytes interpreted'] = len(data)
 
 
-@rule('C10', 'R7', 8, 'page fields from the validated size; stroke from dark, fill from light')
-def r7(fx):
-    svg = fx.fn('writers', 'write_svg')
-    wh = nf.unpack_targets(svg, lambda c: src.call_name(c) == '_valid_width_height_and_border')
-    need(wh is not None and len(wh) == 3, 'write_svg: size unpacking')
-    txt = [ast.unparse(s.value) for s in src.statements(svg.body) if isinstance(s, ast.AugAssign)]
-    yield ob('SVG width/height', f'f\' width="{{{wh[0]}}}{{unit}}" height="{{{wh[1]}}}{{unit}}"\'' in txt, svg, got=[t for t in txt if 'width=' in t], want='width="{width}{unit}" height="{height}{unit}"')
-    yield ob('SVG viewBox', f'f\' viewBox="0 0 {{{wh[0]}}} {{{wh[1]}}}"\'' in txt, svg, got=[t for t in txt if 'viewBox' in t], want='viewBox="0 0 {width} {height}"')
-    for w in VEC[:3]:
-        fn = fx.fn('writers', w)
-        a = [s for s in fn.body if isinstance(s, ast.Assign) and pat.match(s.value, '_valid_width_height_and_border(matrix_size, scale, border)') is not None
-             and isinstance(s.targets[0], ast.Tuple) and len(s.targets[0].elts) == 3]
-        yield ob(f'{w}: width, height, border = _valid_width_height_and_border(matrix_size, scale, border)', len(a) == 1, fn, got=len(a), want=1)
-    eps = fx.fn('writers', 'write_eps')
-    whe = nf.unpack_targets(eps, lambda c: src.call_name(c) == '_valid_width_height_and_border')
-    need(whe is not None and len(whe) == 3, 'write_eps: size unpacking')
-    bb = [ast.unparse(c.args[0]) for c in src.calls_in(eps) if c.args and 'BoundingBox' in ast.unparse(c.args[0]) and isinstance(c.args[0], ast.JoinedStr)]
-    yield ob('EPS BoundingBox', bb == [f"f'%%BoundingBox: 0 0 {{{whe[0]}}} {{{whe[1]}}}'"], eps, got=bb, want=["f'%%BoundingBox: 0 0 {width} {height}'"])
-    sw = [c for c in src.calls_in(eps) if pat.match(c, "writeline('{0:f} {1:f} {2:f} setrgbcolor'.format(*H_c))") is not None]
-    c_ = single(sw, 'EPS stroke colour line')
-    sc_ = pat.match(c_, "writeline('{0:f} {1:f} {2:f} setrgbcolor'.format(*H_c))")['c']
-    yield ob('EPS stroke colour from dark', nf.same_inlined(eps, sc_, 'dark if _color_is_black(dark) else rgb_to_floats(dark)')
-             and nf.guard_is([(nf.inline(eps, t), pol) for t, pol in nf.guards_of(c_, eps) if not isinstance(t, ast.Name) or True][-1:], 'not _color_is_black(dark)'), c_,
-             got=ast.unparse(nf.inline(eps, sc_)), want='rgb_to_floats(dark) unless black')
-    pdf = fx.fn('writers', 'write_pdf')
-    rg = [ast.unparse(s) for s in src.statements(pdf.body) if isinstance(s, ast.Expr) and isinstance(s.value, ast.Call) and 'RG' in ast.unparse(s)]
-    g = [s for s in pdf.body if isinstance(s, ast.If) and 'RG' in ast.unparse(s)]
-    yield ob('PDF stroke colour from dark', rg == ["append_cmd('{} {} {} RG'.format(*to_pdf_color(dark)))"] and len(g) == 1 and nf.same(g[0].test, 'not _color_is_black(dark)'), pdf,
-             got=rg, want=["append_cmd('{} {} {} RG'.format(*to_pdf_color(dark)))"])
-    tex = fx.fn('writers', 'write_tex')
-    lw = [ast.unparse(c.args[0]) for c in src.calls_in(tex, 'write') if 'pgfsetlinewidth' in ast.unparse(c)]
-    yield ob('TeX line width = scale in the unit', lw == ["f'  \\\\pgfsetlinewidth{{{scale}{unit}}}\\n'"], tex, got=lw, want='\\pgfsetlinewidth{<scale><unit>}')
-
-
 @rule('C10', 'R8', 2, 'colour components map linearly: c -> c/255 for all 256 integer values, floats in [0, 1] unchanged')
 def r8(fx):
     it = Interp(max_steps=5_000_000)
@@ -302,3 +192,195 @@ def r8(fx):
         except PyRaise as e:
             rng = e.name
         yield ob(f'{q}', not bad and not fl and rng == 'ValueError', fx.fn('writers', q), got=f'{bad[:3]} {fl} float 1.5: {rng}', want='c/255; floats unchanged; 1.5 -> ValueError')
+
+
+# ---- rendering with the symbol abstracted away -----------------------------------------------------
+# The vector writers are interpreted with the run extractor replaced by a fixed list of two marker runs and the
+# output object by a recorder.  What is examined is the document *structure* each writer produces around the runs:
+# page fields, where and when the scale transform is emitted, the background, the colours, the origin.  The structure
+# does not depend on the symbol, so the two marker runs stand for any symbol.
+
+class _Rec:
+    _model = ('write', 'tell')
+
+    def __init__(self):
+        self.parts = []
+
+    def write(self, x):
+        self.parts.append(x)
+
+    def tell(self):
+        return sum(len(x) for x in self.parts)
+
+    def text(self):
+        return ''.join(x if isinstance(x, str) else x.decode('latin1') for x in self.parts)
+
+
+class _TimeStub:
+    _model = ('strftime', 'timezone')
+    timezone = 0
+
+    @staticmethod
+    def strftime(fmt):
+        return '<time>'
+
+
+class _ZStub:
+    _model = ('compress',)
+
+    @staticmethod
+    def compress(data, level=9):
+        return b'<Z>' + data + b'</Z>'
+
+
+class _TW:
+    _model = ('wrap',)
+
+    @staticmethod
+    def wrap(text, width):
+        import textwrap
+        return textwrap.wrap(text, width)
+
+
+RUNS = (((0, 0), (3, 0)), ((5, 1), (6, 1)))      # (dx1, row), (dx2, row): a run of 3 modules in row 0, one module in row 1
+
+
+def _render(fx, it, writer, scale, dark, light, border=None, size=21, **extra):
+    rec = _Rec()
+    calls = []
+
+    def mtl(matrix, x, y, incby=1):
+        calls.append((x, y, incby))
+        return iter([((x + a, y + r1 * incby), (x + b_, y + r2 * incby)) for (a, r1), (b_, r2) in RUNS])
+    part = __import__('functools').partial
+    genv = callable_env(fx.forest, 'writers', it, {'writable': lambda out, mode, encoding=None: CM(rec), 'matrix_to_lines': mtl,
+                                                    'time': _TimeStub(), 'zlib': _ZStub(), 'textwrap': _TW(), 'partial': part})
+    fn = fx.fn('writers', writer)
+    f = FuncVal(fn, genv, it)
+    if writer == 'write_svg':
+        cm = genv['_make_colormap'](size, size, dark=dark, light=light)
+        f('<matrix>', (size, size), '<out>', cm, scale=scale, border=border, **extra)
+    else:
+        f('<matrix>', (size, size), '<out>', scale=scale, border=border, dark=dark, **({'light': light} if writer != 'write_tex' else {}), **extra)
+    return rec.text(), calls
+
+
+def _num(x):
+    return repr(x) if not isinstance(x, float) or x != int(x) else repr(x)
+
+
+SCALES = (0.5, 1, 2, 3.3)
+
+
+@rule('C10', 'R2', 30, 'SVG / EPS / PDF / TeX document structure (symbol abstracted to two marker runs): page = (size+2b)*scale, transform iff scale != 1, runs in module units at the border offset, background fills the page, colours')
+def r2(fx):
+    import re
+    it = Interp(max_steps=5_000_000)
+    size, b = 21, 4
+    n = size + 2 * b
+    for scale in SCALES:
+        W = n * scale
+        for light in (None, '#ff0000'):
+            for dark in ('#000', '#0000ff'):
+                tag = f'scale={scale} dark={dark} light={light}'
+                # ---------------- SVG
+                txt, calls = _render(fx, it, 'write_svg', scale, dark, light)
+                probs = []
+                m = re.search(r'<svg[^>]* width="([^"]+)" height="([^"]+)"', txt)
+                if not m or (m.group(1), m.group(2)) != (str(W), str(W)):
+                    probs.append(f'width/height {m.groups() if m else None} != {W}')
+                tr = re.findall(r' transform="scale\(([^)]+)\)"', txt)
+                if scale != 1 and tr != [str(scale)]:
+                    probs.append(f'scale transform {tr}, expected one scale({scale})')
+                if scale == 1 and tr:
+                    probs.append(f'scale transform {tr} although scale is 1')
+                paths = re.findall(r'<path([^>]*) d="([^"]+)"/>', txt)
+                stroke = [p for p in paths if 'stroke=' in p[0]]
+                want_d = f'M{b} {b}.5h3m2 1h1'
+                if len(stroke) != 1 or stroke[0][1] != want_d:
+                    probs.append(f'dark path {stroke}, expected d="{want_d}"')
+                elif f'stroke="{"#000" if dark == "#000" else "#00f"}"' not in stroke[0][0]:
+                    probs.append(f'stroke colour in {stroke[0][0]}')
+                fill = [p for p in paths if 'fill=' in p[0]]
+                if light is None and fill:
+                    probs.append(f'background path without light colour: {fill}')
+                if light is not None and (len(fill) != 1 or fill[0][1] != f'M0 0h{n}v{n}h-{n}z' or 'fill="red"' not in fill[0][0]):
+                    probs.append(f'background path {fill}, expected M0 0h{n}v{n}h-{n}z filled red')
+                if scale != 1 and len(paths) > 1 and not re.search(r'<g transform="scale\([^)]+\)">', txt):
+                    probs.append('with several paths the transform must be on the enclosing group')
+                if calls != [(b, b + .5, 1)]:
+                    probs.append(f'run extractor called with {calls}')
+                yield ob(f'SVG {tag}', not probs, fx.fn('writers', 'write_svg'), got='; '.join(probs) or 'as required', want='as required')
+                # ---------------- EPS
+                txt, calls = _render(fx, it, 'write_eps', scale, dark, light)
+                lines = txt.split('\n')
+                probs = []
+                if f'%%BoundingBox: 0 0 {W} {W}' not in lines:
+                    probs.append(f'BoundingBox line {[l for l in lines if "BoundingBox" in l]} != 0 0 {W} {W}')
+                sc_lines = [i for i, l in enumerate(lines) if l == f'{scale} {scale} scale']
+                any_scale = [l for l in lines if l.endswith(' scale')]
+                if scale != 1 and len(sc_lines) != 1:
+                    probs.append(f'scale line {any_scale}')
+                if scale == 1 and any_scale:
+                    probs.append(f'scale line {any_scale} although scale is 1')
+                bg = [i for i, l in enumerate(lines) if l.endswith('clippath fill')]
+                if light is None and bg:
+                    probs.append('background without light colour')
+                if light is not None:
+                    if len(bg) != 1 or not lines[bg[0]].startswith('1.000000 0.000000 0.000000 setrgbcolor'):
+                        probs.append(f'background line {[lines[i] for i in bg]}')
+                    elif sc_lines and bg[0] > sc_lines[0]:
+                        probs.append('background after the scale')
+                mv = [i for i, l in enumerate(lines) if ' moveto ' in l]
+                y0 = size + b - .5
+                want_path = f'{b} {y0} moveto 3 0 l 2 -1 m 1 0 l'
+                if len(mv) != 1 or lines[mv[0]] != want_path:
+                    probs.append(f'path {[lines[i] for i in mv]}, expected {want_path}')
+                elif sc_lines and mv[0] < sc_lines[0]:
+                    probs.append('path before the scale')
+                col = [l for l in lines if l.endswith('setrgbcolor')]
+                want_col = ([] if light is None else (['0 0 0 setrgbcolor'] if dark == '#000' else [])) + ([] if dark == '#000' else ['0.000000 0.000000 1.000000 setrgbcolor'])
+                if col != want_col:
+                    probs.append(f'colour lines {col}, expected {want_col}')
+                if 'stroke' not in lines:
+                    probs.append('no stroke')
+                yield ob(f'EPS {tag}', not probs, fx.fn('writers', 'write_eps'), got='; '.join(probs) or 'as required', want='as required')
+                # ---------------- PDF
+                txt, calls = _render(fx, it, 'write_pdf', scale, dark, light)
+                probs = []
+                if f'/MediaBox [0 0 {W} {W}]' not in txt:
+                    probs.append(f'MediaBox {re.findall(r"/MediaBox [^/]*", txt)} != [0 0 {W} {W}]')
+                m = re.search(r'<Z>(.*)</Z>', txt, re.S)
+                content = m.group(1) if m else ''
+                want = ''
+                if light is not None:
+                    want += f'1.0 0.0 0.0 rg 0 0 {W} {W} re f q '
+                if scale != 1:
+                    want += f'{scale} 0 0 {scale} 0 0 cm '
+                if dark != '#000':
+                    want += '0.0 0.0 1.0 RG '
+                want += f'1 0 0 1 {b} {size + b - .5} cm 0 0 m 3 0 l 5 -1 m 6 -1 l S'
+                if content != want:
+                    probs.append(f'content stream `{content}`, expected `{want}`')
+                yield ob(f'PDF {tag}', not probs, fx.fn('writers', 'write_pdf'), got='; '.join(probs) or 'as required', want='as required')
+        # ---------------- TeX (no light colour)
+        for dark in ('black', 'blue'):
+            txt, calls = _render(fx, it, 'write_tex', scale, dark, None)
+            probs = []
+            if f'\\pgfsetlinewidth{{{scale}pt}}' not in txt:
+                probs.append(f'line width {re.findall(r"pgfsetlinewidth[^ ]*", txt)}')
+            pts = re.findall(r'\\pgfqpoint\{([^}]*)\}\{([^}]*)\}', txt)
+            want_pts = [(f'{b * scale}pt', f'{-b * scale}pt'), (f'{(b + 3) * scale}pt', f'{-b * scale}pt'),
+                        (f'{(b + 5) * scale}pt', f'{(-b - 1) * scale}pt'), (f'{(b + 6) * scale}pt', f'{(-b - 1) * scale}pt')]
+            if pts != want_pts:
+                probs.append(f'points {pts}, expected {want_pts}')
+            if (dark != 'black') != (f'\\color{{{dark}}}' in txt):
+                probs.append('colour command')
+            yield ob(f'TeX scale={scale} dark={dark}', not probs, fx.fn('writers', 'write_tex'), got='; '.join(probs) or 'as required', want='as required')
+    # SVG options that move the size to the viewBox
+    txt, _ = _render(fx, it, 'write_svg', 2, '#000', None, omitsize=True)
+    yield ob('SVG omitsize: viewBox instead of width/height', 'viewBox="0 0 58 58"' in txt and ' width=' not in txt, fx.fn('writers', 'write_svg'),
+             got=re.findall(r'<svg[^>]*>', txt), want='viewBox="0 0 58 58", no width/height')
+    txt, _ = _render(fx, it, 'write_svg', 2, '#000', None, unit='mm')
+    yield ob('SVG unit: width/height carry the unit, viewBox gives the user units', 'width="58mm" height="58mm"' in txt and 'viewBox="0 0 58 58"' in txt,
+             fx.fn('writers', 'write_svg'), got=re.findall(r'<svg[^>]*>', txt), want='width="58mm" height="58mm" viewBox="0 0 58 58"')
